@@ -29,6 +29,7 @@ type SimCfg struct {
 	Top     string
 	Resync  bool // handler machines: after a handler consumed a value the code re-reads its last byte
 	Fast    bool // non-validating skip machine: proved under the hypothesis that the spec accepts
+	Num     bool // number registers of the spec run (mantissa, digit count, decimal point, exponent)
 }
 
 type Sim struct {
@@ -70,6 +71,8 @@ func parseSimCfg(fc *FuncContract) (*SimCfg, error) {
 			c.Resync = v == "1"
 		case k == "fast":
 			c.Fast = v == "1"
+		case k == "num":
+			c.Num = v == "1"
 		case k == "stack":
 			c.Stack = v
 		case k == "top":
@@ -103,6 +106,47 @@ func (ex *Exec) Rframe(arr, k *Term) *Term {
 	return App(ex.rName("frame", arr), ArraySort(BV(64), BV(8)), k)
 }
 
+
+// Number registers of the spec run: what the number token being read denotes, as a left fold
+// over its bytes. mant: value of the first (at most 19) mantissa digits, leading zeros counted as
+// digits; nd: number of mantissa digits seen; dot / dp: a decimal point was seen / number of
+// digits before it; neg: leading minus; ev / esg: exponent digits folded while below 10000 / sign.
+// The literal denotes (-1)^neg * mant * 10^((dot ? dp : nd) + esg*ev - min(nd,19)), exactly if
+// nd <= 19 and from below otherwise (positional notation; the caps 19 and 10000 are the
+// documented parameters of the conversion: 10^19 fits 64 bits, exponents beyond 10000 saturate).
+func (ex *Exec) Rnum(reg string, arr, k *Term) *Term {
+	so := BV(64)
+	if reg == "dot" || reg == "neg" {
+		so = BoolSort
+	}
+	return App(ex.rName("num."+reg, arr), so, k)
+}
+
+func (ex *Exec) numAxiom(arr, k *Term) *Term {
+	q, q1 := ex.Rq(arr, k), ex.Rq(arr, Add(k, I64(1)))
+	b := Select(arr, k)
+	k1 := Add(k, I64(1))
+	r := func(reg string) *Term { return ex.Rnum(reg, arr, k) }
+	r1 := func(reg string) *Term { return ex.Rnum(reg, arr, k1) }
+	start := And(Not(qnamed(q, "InValue.Num*")), qnamed(q1, "InValue.Num*"))
+	digitStep := qnamed(q1, "InValue.NumZero@*", "InValue.NumInt@*", "InValue.NumFrac@*")
+	dotStep := qnamed(q1, "InValue.NumDot@*")
+	expStep := qnamed(q1, "InValue.NumExp@*")
+	signStep := qnamed(q1, "InValue.NumESign@*")
+	d := ZeroExt(56, Sub(b, BVI(8, '0')))
+	m0 := Ite(start, I64(0), r("mant"))
+	n0 := Ite(start, I64(0), r("nd"))
+	ev0 := Ite(start, I64(0), r("ev"))
+	return And(
+		Eq(r1("nd"), Add(n0, Ite(digitStep, I64(1), I64(0)))),
+		Eq(r1("mant"), Ite(And(digitStep, Slt(n0, I64(19))), Add(Mul(m0, I64(10)), d), m0)),
+		Eq(r1("dot"), Ite(start, False, Or(dotStep, r("dot")))),
+		Eq(r1("dp"), Ite(start, I64(0), Ite(dotStep, n0, r("dp")))),
+		Eq(r1("neg"), Ite(start, Eq(b, BVI(8, '-')), r("neg"))),
+		Eq(r1("ev"), Ite(And(expStep, Slt(ev0, I64(10000))), Sub(Add(Mul(ev0, I64(10)), ZeroExt(56, b)), I64('0')), ev0)),
+		Eq(r1("esg"), Ite(start, I64(1), Ite(signStep, Ite(Eq(b, BVI(8, '-')), I64(-1), I64(1)), r("esg")))),
+	)
+}
 
 // Rna / Rno: number of array / object frames open at position k (counters of the spec
 // transducer, used only by the bracket-kind-only "fast" machine).
@@ -164,6 +208,9 @@ func (ex *Exec) stepAxiom(arr, k *Term) *Term {
 		na1 := Sub(Add(ex.Rna(arr, k), one(And(isPushA, Not(limitHit)))), one(And(popping, Eq(topKind, q8(ctxKindArr)))))
 		no1 := Sub(Add(ex.Rno(arr, k), one(And(isPushO, Not(limitHit)))), one(And(popping, Eq(topKind, q8(ctxKindObj)))))
 		ax = And(ax, Eq(ex.Rna(arr, k1), na1), Eq(ex.Rno(arr, k1), no1))
+	}
+	if ex.simNum {
+		ax = And(ax, ex.numAxiom(arr, k))
 	}
 	if ex.simVariant == "travobj" {
 		quote := Eq(b, BVI(8, '"'))
@@ -281,6 +328,17 @@ func init() {
 		arr, off, _ := sliceArgs(e, a[0], n)
 		return TV{V: Sub(e.ex.Rke(arr, Add(off, Resize(argTerm(e, a[1], n), 64, true))), off), Signed: true}
 	}
+	// Rnum(data, "mant"|"nd"|"dot"|"dp"|"neg"|"ev"|"esg", k): number registers of the spec run
+	specFns["Rnum"] = func(e *Env, a []TV, n *ast.CallExpr) TV {
+		arr, off, _ := sliceArgs(e, a[0], n)
+		bl, ok := n.Args[1].(*ast.BasicLit)
+		if !ok {
+			e.fail("Rnum: register name expected")
+		}
+		reg, _ := strconv.Unquote(bl.Value)
+		k := Add(off, Resize(argTerm(e, a[2], n), 64, true))
+		return TV{V: e.ex.Rnum(reg, arr, k), Signed: true}
+	}
 	specFns["accepts"] = func(e *Env, a []TV, n *ast.CallExpr) TV {
 		arr, off, ln := sliceArgs(e, a[0], n)
 		return TV{V: e.ex.acceptsTerm(arr, Add(off, ln))}
@@ -397,7 +455,12 @@ func (eng *Engine) attachSim(fp *FuncProof) {
 	ex := fp.ex
 	ex.simVariant = cfg.Variant
 	ex.simLimit = cfg.Limit
+	if fp.opts.SimAs != "" && fp.fc.SimOpts["init"] == "none" {
+		ex.simVariant, ex.simLimit = fp.opts.SimAs, -1
+		cfg.Variant, cfg.Limit = fp.opts.SimAs, -1
+	}
 	ex.simFast = cfg.Fast
+	ex.simNum = cfg.Num
 	sv, ok := ex.params[cfg.Data].(*SliceV)
 	if !ok {
 		fp.problem("sim: no slice parameter %s", cfg.Data)
